@@ -9,8 +9,8 @@ import time
 from common import CACHE, OFFLINE_ENV, SCRATCH, TARGET, WORK, Undecided, dump_json, load_json, log
 
 KANI_FLAGS = ["-Z", "function-contracts", "-Z", "stubbing", "-Z", "unstable-options"]
-MEM_LIMIT_GB = int(os.environ.get("VERIF_MEM_GB", "20"))
-LIGHT_JOBS = int(os.environ.get("VERIF_JOBS", "12"))
+MEM_LIMIT_GB = int(os.environ.get("VERIF_MEM_GB", "16"))
+LIGHT_JOBS = int(os.environ.get("VERIF_JOBS", "10"))
 HEAVY_JOBS = int(os.environ.get("VERIF_HEAVY_JOBS", "4"))
 HEAVY_THRESHOLD = 400          # declared timeout above which an obligation runs in the heavy group
 
@@ -107,9 +107,12 @@ def _classify(res, ob):
     elif unsupported:
         out["verdict"] = "undecided"
         out["reason"] = "unsupported construct reached: " + str(unsupported[0].get("description"))
-    else:
+    elif failed:
         out["verdict"] = "undecided"
         out["reason"] = "unwinding bound too small (only unwinding assertions failed)"
+    else:
+        out["verdict"] = "undecided"
+        out["reason"] = "cbmc did not finish (no failed check reported: timeout / out of memory / crash)"
     return out
 
 
@@ -177,13 +180,10 @@ def run_obligations(obs, tree_hash, use_cache=True):
     for o in todo:
         by_feat.setdefault(o.get("features", ""), []).append(o)
     for feat, group in by_feat.items():
-        light = [o for o in group if o["timeout"] <= HEAVY_THRESHOLD]
-        heavy = [o for o in group if o["timeout"] > HEAVY_THRESHOLD]
-        r = {}
-        if light:
-            r.update(_run_group(light, LIGHT_JOBS, max(o["timeout"] for o in light), feat, "light"))
-        if heavy:
-            r.update(_run_group(heavy, HEAVY_JOBS, max(o["timeout"] for o in heavy), feat, "heavy"))
+        # one invocation (one crate build); the longest-running harnesses are listed first so that they
+        # overlap with the many short ones.  Every kept harness was measured below 8 GB (DESIGN.md 12).
+        group = sorted(group, key=lambda o: -o["timeout"])
+        r = _run_group(group, LIGHT_JOBS, max(o["timeout"] for o in group), feat, "all")
         for oid, res in r.items():
             res["cached"] = False
             results[oid] = res
@@ -200,10 +200,14 @@ def concrete_playback(ob, features=""):
     p = subprocess.run(cmd, cwd=SCRATCH, env=_env(features), stdout=subprocess.PIPE, stderr=subprocess.STDOUT,
                        text=True, errors="replace", preexec_fn=_limits)
     out = p.stdout
-    m = re.search(r"let concrete_vals: Vec<Vec<u8>> = vec!\[(.*?)\];", out, re.S)
-    if not m:
+    # Kani prints one playback test per failed check AND per satisfied cover; return every distinct vector list
+    cands = []
+    for m in re.finditer(r"let concrete_vals: Vec<Vec<u8>> = vec!\[(.*?)\];", out, re.S):
+        vals = []
+        for vm in re.finditer(r"vec!\[([0-9,\s]*)\]", m.group(1)):
+            vals.append([int(x) for x in vm.group(1).replace(" ", "").split(",") if x != ""])
+        if vals not in cands:
+            cands.append(vals)
+    if not cands:
         return None, out
-    vals = []
-    for vm in re.finditer(r"vec!\[([0-9,\s]*)\]", m.group(1)):
-        vals.append([int(x) for x in vm.group(1).replace(" ", "").split(",") if x != ""])
-    return vals, out
+    return cands, out
